@@ -148,6 +148,19 @@ pub fn scrambled_header(spec: &ImgSpec, rng: &mut Rng) -> Vec<u8> {
 	let st = spec.sec_table_off() as usize;
 	let (s0, s1) = (st.min(b.len()), (st + 40 * spec.secs.len()).min(b.len()));
 	if s0 < s1 { b[s0..s1].copy_from_slice(&fresh[s0..s1]); }
+	// the don't-care fields of the section headers (seed C10-16: a scanner that skips sections by their Characteristics):
+	// Characteristics, PointerToRelocations, PointerToLinenumbers and the two counts are read by no parser of the library
+	// (only reported verbatim); re-drawn when the table overlaps nothing else
+	if st >= d1 && st + 40 * spec.secs.len() <= b.len() {
+		for k in 0..spec.secs.len() {
+			let p = st + 40 * k;
+			if rng.chance(1, 2) {
+				let c = match rng.below(8) { 0 => 0u32, 1 => 0x80, 2 => 0xE000_00C0, 3 => 0xFFFF_FFFF, 4 => 0x4200_0040, 5 => 0x6000_0020, _ => rng.next() as u32 };
+				b[p + 36..p + 40].copy_from_slice(&c.to_le_bytes());
+			}
+			if rng.chance(1, 4) { for off in [24usize, 28, 32] { let v = r32v(rng); b[p + off..p + off + 4].copy_from_slice(&v.to_le_bytes()); } }
+		}
+	}
 	// the fields every model reads, wherever the overlaps put them
 	for (a, z) in [(0usize, 2usize), (60, 64), (nt, nt + 8), (nt + 20, nt + 22), (o, o + 2), (o + 56, o + 68)] {
 		let z = z.min(b.len());
